@@ -154,11 +154,17 @@ CLAIMED = {
              "`unroll_complete` (every execution is realised), `unroll_inputs` (free inputs = step-0 state inputs + per-step "
              "copies of the other inputs; outputs), `unroll_rejects`, `sequential_unroll_reduces` (sequential_unroll = unroll of "
              "the blackbox-stripped circuit with the flops' d/q pins as state pairing, flop outputs marked exactly when "
-             "requested, string initial values become constants) — every n, pairing, order. The semantic part of "
-             "sequential_unroll beyond this reduction (strip_blackboxes, remove_unloaded, per-flop dict) is tied by exact "
-             "correspondence and cycle-accurate simulation search only.",
+             "requested, string initial values become constants) — every n, pairing, order; `sequential_unroll_sem` / "
+             "`sequential_unroll_complete` (cycle-accurate semantics: the consistent valuations of the unrolled circuit are "
+             "exactly the runs of the sequential circuit — one consistent valuation per cycle, q(t+1) = d(t), a string "
+             "initial value fixes q(0) — shown at the io map's nodes for the outputs and the exposed flop data nodes; every "
+             "add_flop_outputs / ignore_pins / remove_unloaded choice and order). The per-flop initial-value dict is tied by "
+             "exact correspondence and cycle-accurate simulation search only.",
         note=TRUST + " The hypothesis the proof of `unroll_inputs` had forced (no state output is itself an input) was a genuine "
-             "defect, repaired in /repo (K33); the theorem now holds without it (regression example CG/Proofs/UnrollCex.lean).",
+             "defect, repaired in /repo (K33); the theorem now holds without it (regression example CG/Proofs/UnrollCex.lean). "
+             "`sequential_unroll_*` assume `SeqGood` (one flop type, pins present, no pin marked as output), data pins not "
+             "ignored and no node named like an exposed pin — each shown necessary by a counterexample theorem in "
+             "CG/Proofs/UnrollSeqSemCex.lean.",
         ref="§4 C09"),
     "C18": dict(
         technique="Lean 4 theorems (soundness of the feedback-arc heuristic for any ordering, chained-copies invariant, "
